@@ -2,3 +2,4 @@ import Model.Bytes
 import Model.Data
 import Model.Reply
 import Model.Proxy
+import Model.Envelope
